@@ -67,7 +67,7 @@ def draw_scenario(ch):
     thick2 = [ch.pick([0.0, 7.0, 33.0, 80.0, 170.0, 240.0], "thickness-2") for _ in range(n)] if ch.bool(0.5, "joint") else None
     if thick2 == thick:
         thick2 = None
-    return {"thicknesses2": thick2, "crystal": ch.pick(CRYSTALS, "crystal"), "g_max": ch.pick([2.0, 2.5, 3.0, 3.5], "g_max"), "sg_max": ch.pick([0.05, 0.1, 0.2], "sg_max"),
+    return {"thicknesses2": thick2, "crystal": ch.pick(CRYSTALS, "crystal"), "g_max": ch.pick([2.0, 2.5, 1.5, 3.0], "g_max"), "sg_max": ch.pick([0.05, 0.1, 0.15], "sg_max"),
             "energy": ch.pick([80e3, 200e3, 300e3], "energy"), "rot": [ch.pick([0.0, 0.01, 0.03, -0.02], "rx"), ch.pick([0.0, 0.02, -0.01], "ry")],
             "thermal": ch.pick([0.0, 0.0, 0.08], "thermal"), "thicknesses": thick,
             "precision": "float64" if ch.bool(0.7, "float64") else "float32", "z_index": ch.range(0, n - 1, "z-index")}
@@ -114,6 +114,11 @@ def run_one(run):
         sc["reference_error"] = f"{type(e).__name__}: {e} at {tb(e)}"[:300]
         return
     sc["n_beams"] = nb
+    if nb > 350:
+        # dense eigen-decompositions of > 350 beams take tens of seconds each (minutes on a loaded machine): outside the run budget
+        run.invalid = True
+        run.note("too_many_beams_skipped")
+        return
     thick = sc["thicknesses"]
 
     def guard(f, mode):
